@@ -3,6 +3,16 @@ oracle of C03 (and reused by C01/C08/C09).  `run(name, frame, args)` returns a c
 result: ('ok', canon) or ('err', exception class name)."""
 from __future__ import annotations
 
+
+class _IB(type):
+    def __instancecheck__(cls, o):
+        from static_frame.core.index_base import IndexBase as B
+        return isinstance(o, B)
+
+
+class IndexBase(metaclass=_IB):
+    pass
+
 import io
 
 import numpy as np
@@ -23,7 +33,7 @@ def canon(o, depth=0):
                 type(o.index).__name__, type(o.columns).__name__)
     if isinstance(o, sf.Series):
         return ('Series', tuple(tok(x) for x in o.index), tuple(array_toks(o.values)), dtype_tok(o.dtype), tok(o.name), type(o.index).__name__)
-    if isinstance(o, sf.IndexBase):
+    if isinstance(o, IndexBase):
         return ('Index', type(o).__name__, tuple(tok(x) for x in o), tok(o.name))
     if isinstance(o, sf.TypeBlocks):
         return ('TB', tuple((dtype_tok(o._extract_array(column_key=j).dtype), tuple(array_toks(o._extract_array(column_key=j)))) for j in range(o.shape[1])), tuple(o.shape))
